@@ -19,6 +19,7 @@ import (
 	"bufio"
 	"encoding/json"
 	"fmt"
+	"math/rand"
 	"os"
 	"strings"
 	"sync"
@@ -203,6 +204,7 @@ func TestVerifC20(t *testing.T) {
 	sc := bufio.NewScanner(f)
 	sc.Buffer(make([]byte, 1<<20), 1<<28)
 	var tpls []c20Template
+	var kept []c20Kept
 	for i := 0; sc.Scan(); i++ {
 		if i > 0 && i%shards != shard {
 			continue
@@ -230,8 +232,40 @@ func TestVerifC20(t *testing.T) {
 		for _, v := range runC20Case(kit.Case{Index: i, Steps: []kit.M{one}}, tpls, rep) {
 			rep.Put(v)
 		}
+		if len(kept) < 60000 {
+			kept = append(kept, c20Kept{i, one})
+		}
 	}
 	if err := sc.Err(); err != nil {
 		rep.Put(kit.Verdict{Infra: true, Msg: err.Error()})
+		return
 	}
+	// later passes in the same process: reversed, then seeded order; every result is compared with
+	// the specification again (the answer must not depend on what was evaluated before)
+	for k := len(kept) - 1; k >= 0; k-- {
+		for _, v := range c20Again(kept[k].index, kept[k].tc, tpls, "second pass (reversed order)") {
+			c20PutLater(rep, v)
+		}
+	}
+	rnd := rand.New(rand.NewSource(kit.Seed() + int64(shard)))
+	for _, k := range rnd.Perm(len(kept)) {
+		for _, v := range c20Again(kept[k].index, kept[k].tc, tpls, "third pass (seeded order)") {
+			c20PutLater(rep, v)
+		}
+	}
+	rep.Count("later_pass_cases", 2*len(kept))
+}
+
+// later passes add comparisons, not cases
+func c20PutLater(rep *kit.Reporter, v kit.Verdict) {
+	if v.OK {
+		rep.Count("steps", v.Steps)
+		return
+	}
+	rep.Put(v)
+}
+
+type c20Kept struct {
+	index int
+	tc    kit.M
 }
